@@ -11,7 +11,7 @@ from framework import Unit
 IMPORTS = ('From ArmV Require Import Spec.Pseudocode Spec.Arch.\n'
            'From Gen Require Import enums exec.')
 SPEC_IMPORTS = 'From ArmV Require Import Spec.Pseudocode Spec.Arch Spec.MachineView Spec.DPSem.'
-PROPS_FILES = ['C01', 'C01_0', 'C01_1', 'C01_2', 'C01_3']
+PROPS_FILES = ['C01', 'C01_0', 'C01_1', 'C01_2', 'C01_3', 'C01misc']
 TABLE = json.load(open(os.path.join(C.VERIF, 'tools', 'spec', 'dp_table.json')))['classes']
 CORN = [0, 1, 0x7FFFFFFF, 0x80000000, 0xFFFFFFFF, 0xFFFFFFFE, 0x80000001, 0x12345678, 0xC0000000]
 
@@ -143,6 +143,40 @@ def cases(rng, tier):
     return out
 
 
+def misc_cases(rng, tier):
+    """ADR (both signs, Rd = PC included) and MOVT against their statements in Props/C01misc.v"""
+    import copy
+    t = statelib.load_index(C.GEN)['tables']
+    out = []
+    per = 40 if tier == 'quick' else 2000
+    icpsr = t['sys_names'].index('cpsr')
+    for _ in range(per):
+        cfgd = copy.deepcopy(statelib.DEFAULT_CFG)
+        cfgd['arch_version'] = rng.choice([5, 6, 7])
+        st = statelib.reset_state(t, cfg=cfgd, mem=[])
+        thumb = rng.getrandbits(1)
+        st['sys'][icpsr] = (rng.getrandbits(4) << 28) | (thumb << 5) | rng.choice([16, 19, 31])
+        st['R'] = [rng.getrandbits(32) for _ in range(34)]
+        st['R'][t['rnames'].index('PC')] = rng.choice([0x1000, 0x1002, 0xFFFFFFFC, 0, rng.getrandbits(32)]) & (~1 if thumb else ~3)
+        st['opcode'], st['opcode_len'] = 0xE0000000, 32
+        cfg = statelib.coq_config(cfgd, t)
+        m = statelib.coq_machine(st)
+        arch, jaz = cfgd['arch_version'], int(cfgd['jazelle_accepts_execution'])
+        add, imm = rng.getrandbits(1), rng.choice([0, 4, 0xFFF, 0xFF000000, rng.getrandbits(32)])
+        d = rng.choice(list(range(13)) + ([15, 15] if not thumb else []))
+        val = f'(ADR_value {m} {add} {imm})'
+        spec = f'(apply_pc {m} (ALUWritePC {arch} (cpsr_of {m}) {jaz} {val}))' if d == 15 else f'(rset {m} {d} {val})'
+        out.append({'impl': {'kind': 'exec', 'state': st, 'module': 'adr', 'cls': 'Adr', 'fields': [0, add, d, imm]},
+                    'model': f'(enc_out enc_machine enc_unit (Adr_execute {cfg} 0 {add} {d} {imm} {m}))',
+                    'spec': f'(enc_out enc_machine enc_unit (Ok tt {spec}))', 'label': 'Adr', 'nontrivial': True})
+        d2, imm16 = rng.randrange(13), rng.choice([0, 0xFFFF, rng.getrandbits(16)])
+        out.append({'impl': {'kind': 'exec', 'state': st, 'module': 'movt', 'cls': 'Movt', 'fields': [0, d2, imm16]},
+                    'model': f'(enc_out enc_machine enc_unit (Movt_execute {cfg} 0 {d2} {imm16} {m}))',
+                    'spec': f'(enc_out enc_machine enc_unit (Ok tt (rset {m} {d2} (insert (rget {m} {d2}) 31 16 {imm16}))))',
+                    'label': 'Movt', 'nontrivial': True})
+    return out
+
+
 def units():
     us = []
     us.append(Unit('frame', ['C01_frame', 'C01_frame_regs', 'C01_frame_compare'], ['Proofs/DPFrame.v'], [], None, IMPORTS, SPEC_IMPORTS))
@@ -153,4 +187,7 @@ def units():
     us.append(Unit('dp_classes', ['C01_' + c for c in allc],
                    ['Proofs/DPTactics.v', 'Proofs/DPLemmas.v', 'Proofs/DPSem.v'] + [f'Proofs/DPClasses{i}.v' for i in range(8)],
                    [], cases, IMPORTS, SPEC_IMPORTS))
+    us.append(Unit('adr_movt', ['C01_Adr', 'C01_Movt'], ['Proofs/MiscProofs.v'],
+                   ['opcodes.abstract_opcodes.adr.Adr.execute', 'opcodes.abstract_opcodes.movt.Movt.execute'], misc_cases, IMPORTS,
+                   SPEC_IMPORTS + '\nFrom ArmV Require Import Spec.MachineView Spec.Misc.'))
     return us
